@@ -180,7 +180,7 @@ type ssBigList struct {
 func Harness_C17_q_large_list_elements() {
 	v := ssBigList{Head: verif.U8("head")}
 	nl := 1 + verif.Choice("list-len", 2)
-	lens := []int{10, 250, 254, 300, 505} // 250 and 505: element payloads of exactly 255 and 510 bytes
+	lens := []int{10, 250, 254, 300, 505, 0} // 250 and 505: element payloads of exactly 255 and 510 bytes; 0: a field the encoder omits
 	for i := 0; i < nl; i++ {
 		id := string(rune('0' + i))
 		v.L = append(v.L, ssBig{Blob: verif.Bytes("blob"+id, lens[verif.Choice("bloblen"+id, len(lens))]), N: verif.U8("n" + id)})
